@@ -19,11 +19,15 @@ RULE = ("all per-variable bound-pattern assignments {free, lower, upper, wide, n
         "bound; distinct = distinct bit-exact observation.")
 
 
+# "wide" is replaced by boxes with non-dyadic end points so that scaling involves rounding
+C01_PATS = ["free", "lo", "up", "oddw", "narrow", "fixed", "fixulp", "oddn"]
+
+
 def roots(tier, seed):
     out = []
     ns = [1, 2] if tier == "quick" else [1, 2, 3]
     for n in ns:
-        assigns = alpha.pattern_assignments(n, up_to_perm=(n == 3))
+        assigns = alpha.pattern_assignments(n, pats=C01_PATS, up_to_perm=(n == 3))
         npts_all = sorted({n + 1, 2 * n + 1, (n + 1) * (n + 2) // 2})
         for pats in assigns:
             if all(p in alpha.FIXED_PATS for p in pats):
